@@ -12,7 +12,7 @@ from ..leanio import driver
 from . import dbcommon as C
 
 ID = "C17"
-LEAN_MODULES = ["SqliteDissect.Properties.C17"]
+LEAN_MODULES = ["SqliteDissect.Properties.C17", "SqliteDissect.Properties.C17Step"]
 RULE = ("100-byte strings obtained from valid headers (one per factory database) by perturbing every field with "
         "boundary and random values, every value of the one- and two-byte fields (all 65536 page sizes), all pairs for the interacting fields; WAL / frame / journal headers likewise; "
         "WAL histories in which PRAGMA-settable fields change, each version's header compared with the pragma values "
@@ -195,6 +195,21 @@ def run(ctx):
                 continue
             if len(vh.versions) != len(h.snapshots):
                 continue   # version count is C02's business
+            # (V) the legal-transition specification of C17Step holds between the headers of consecutive versions
+            lines = []
+            for k in range(1, len(vh.versions)):
+                try:
+                    a = bytes(vh.versions[k - 1].get_page_data(1, 0, 100))
+                    b = bytes(vh.versions[k].get_page_data(1, 0, 100))
+                    lines.append(f"spec.hdrstep {hx(a)} {hx(b)} {int(vh.versions[k].database_size_in_pages)} "
+                                 f"{int(bool(vh.versions[k].master_schema_modified))}")
+                except Exception:  # noqa
+                    pass
+            for line, ans in zip(lines, driver.ask(lines) if lines else []):
+                ctx.branch("spec-hdrstep:" + ans.strip())
+                if ans.strip() not in ("ok same", "ok true"):
+                    ctx.spec_fail("Spec.HeaderStep does not hold between two consecutive headers SQLite wrote",
+                                  {"kind": h.kind, "cfg": cfg, "events": h.events}, ans, line[:260])
             for k, snap in enumerate(h.snapshots):
                 hd = vh.versions[k].database_header
                 pr = snap["pragmas"]
